@@ -223,6 +223,68 @@ def tr_join_pins(join_fn, add_pin_fn):
             "            add_pins ([], [], 0%nat, false).\n")
 
 
+def tr_join_links(join_fn, out_fn, in_fn):
+    """which pins are joined: `get_out_to` / `get_in_from` read the first operand's link table (`conn_dict`, a dict: an
+    association list with distinct keys) and `join` pairs every selected pin with its recorded partner, after checking
+    that the second operand's table points back"""
+    t = [ast.unparse(x) for x in strip_doc(out_fn.body)]
+    want = ["pin_list = []", "target_list = [st] + st.structures",
+            "for (loc_c, loc_name), (tar_c, tar_name) in self.conn_dict.items():\n    if tar_c in target_list:\n"
+            "        pin_list.append((loc_c, loc_name))", "return pin_list"]
+    if [x.arg for x in out_fn.args.args] != ["self", "st"] or t != want:
+        raise Unsupported("Structure.get_out_to changed: " + " ; ".join(t)[:300])
+    t = [ast.unparse(x) for x in strip_doc(in_fn.body)]
+    want = ["pin_list = []", "loc_list = [self] + self.structures",
+            "for (source_c, source_name), (loc_c, loc_name) in st.conn_dict.items():\n    if loc_c in loc_list:\n"
+            "        pin_list.append((loc_c, loc_name))", "return pin_list"]
+    if [x.arg for x in in_fn.args.args] != ["self", "st"] or t != want:
+        raise Unsupported("Structure.get_in_from changed: " + " ; ".join(t)[:300])
+    body = strip_doc(join_fn.body)
+    texts = [ast.unparse(x) for x in body]
+    want = ["loc_out = self.get_out_to(st)", "tar_in = st.get_in_from(self)",
+            "if len(loc_out) != len(tar_in):\n    raise Exception('Connectivity problem: Different number of pins')",
+            "for pin1 in loc_out:\n    if pin1 != st.conn_dict[self.conn_dict[pin1]]:\n"
+            "        raise Exception('Connectivity problem: Not Symmetric')",
+            "tar_in = []", "for pin in loc_out:\n    tar_in.append(self.conn_dict[pin])",
+            "self.sel_output(loc_out)", "st.sel_input(tar_in)"]
+    try:
+        k = texts.index(want[0])
+    except ValueError:
+        raise Unsupported("Structure.join: `loc_out = self.get_out_to(st)` not found")
+    if texts[k:k + len(want)] != want:
+        raise Unsupported("Structure.join: the selection of the joined pins changed: " + " ; ".join(texts[k:k + len(want)])[:400])
+    # loc_out / tar_in / the operands' link tables must not be written anywhere else in join
+    for i, st in enumerate(body):
+        if k <= i < k + len(want):
+            continue
+        for n in ast.walk(st):
+            if isinstance(n, (ast.Assign, ast.AugAssign, ast.Delete)):
+                tg = n.targets if not isinstance(n, ast.AugAssign) else [n.target]
+                for x in tg:
+                    for y in ast.walk(x):
+                        if isinstance(y, (ast.Name, ast.Attribute)) and ast.unparse(y) in ("loc_out", "tar_in", "self.conn_dict", "st.conn_dict"):
+                            raise U(st, "Structure.join rebinds the interface pin lists / link tables outside the selection")
+            if isinstance(n, ast.Call) and isinstance(n.func, ast.Attribute) and ast.unparse(n.func.value) in (
+                    "loc_out", "tar_in", "self.conn_dict", "st.conn_dict") and n.func.attr not in ("items", "get", "keys", "values"):
+                raise U(st, "Structure.join mutates the interface pin lists / link tables outside the selection")
+    # the operands of `sel_output` / `sel_input` / `split_in_out` are the lists computed here (checked by the texts above);
+    # cdA / cdB: the two link tables; targets: the second operand and the structures merged into it
+    return ("Definition get_out_to_src (cdA : list (spin * spin)) (targets : list nat) : list spin :=\n"
+            "  fold_left (fun pl it => if idmem (fst (snd it)) targets then pl ++ [fst it] else pl) cdA [].\n\n"
+            "Definition get_in_from_src (cdA : list (spin * spin)) (locs : list nat) : list spin :=\n"
+            "  fold_left (fun pl it => if idmem (fst (snd it)) locs then pl ++ [snd it] else pl) cdA [].\n\n"
+            "(* None: an exception (a refusal or a KeyError) *)\n"
+            "Definition join_links_src (cdA cdB : list (spin * spin)) (targets : list nat) : option (list spin * list spin) :=\n"
+            "  let loc_out := get_out_to_src cdA targets in\n"
+            "  let tar_in := get_in_from_src cdA targets in\n"
+            "  if negb (Nat.eqb (List.length loc_out) (List.length tar_in)) then None else\n"
+            "  if existsb (fun pin1 => match cget pin1 cdA with\n"
+            "                          | Some y => match cget y cdB with Some z => negb (spin_eqb pin1 z) | None => true end\n"
+            "                          | None => true end) loc_out then None else\n"
+            "  if existsb (fun pin => match cget pin cdA with Some _ => false | None => true end) loc_out then None else\n"
+            "  Some (loc_out, map (fun pin => match cget pin cdA with Some y => y | None => dpin end) loc_out).\n")
+
+
 def translate(repo: str) -> str:
     p = os.path.join(repo, "lekkersim", "structure.py")
     with open(p) as fh:
@@ -236,6 +298,10 @@ def translate(repo: str) -> str:
            "(* list.remove(x): the first occurrence *)",
            "Fixpoint remove1 (x : spin) (l : list spin) : list spin :=",
            "  match l with [] => [] | y :: r => if spin_eqb y x then r else y :: remove1 x r end.",
+           "(* dict lookup / `x in list_of_structures` *)",
+           "Fixpoint cget (x : spin) (d : list (spin * spin)) : option spin :=",
+           "  match d with [] => None | it :: r => if spin_eqb (fst it) x then Some (snd it) else cget x r end.",
+           "Definition idmem (n : nat) (l : list nat) : bool := existsb (Nat.eqb n) l.",
            "Section JoinSrc.",
            "Variable K : cfield.", ""]
     out.append(tr_split(find_fn(tree, "Structure", "split_in_out")))
@@ -244,6 +310,8 @@ def translate(repo: str) -> str:
     out.append(tr_sel(find_fn(tree, "Structure", "sel_input"), "out_list", "in_list"))
     out.append(tr_join_pins(find_fn(tree, "Structure", "join"), find_fn(tree, "Structure", "add_pin")))
     out.append("End JoinSrc.")
+    out.append(tr_join_links(find_fn(tree, "Structure", "join"), find_fn(tree, "Structure", "get_out_to"),
+                             find_fn(tree, "Structure", "get_in_from")))
     return "\n".join(out) + "\n"
 
 
